@@ -18,6 +18,14 @@ import (
 // Verif is the home of the machinery: /verif, or the copy bin/check was started from
 var Verif = home()
 
+// RepoDir is the tree under test (bin/check builds the harness and the CLIs from it)
+func RepoDir() string {
+	if h := os.Getenv("BKL_REPO"); h != "" {
+		return h
+	}
+	return "/repo"
+}
+
 func home() string {
 	if h := os.Getenv("BKLV_HOME"); h != "" {
 		return h
